@@ -197,6 +197,13 @@ fn run_reader_ops<I: Iterator<Item = u8>>(mut it: BitIter<I>, ops: &[&str]) -> V
                         Ok(v) => out.extend([0, v as u128, it.n_total_read() as u128]),
                         Err(_) => out.extend([1, it.n_total_read() as u128]),
                     },
+                    o if o.starts_with("nth:") => {
+                        let k: usize = o[4..].parse().unwrap();
+                        match it.nth(k) {
+                            Some(b) => out.extend([0, b as u128, it.n_total_read() as u128]),
+                            None => out.extend([1, it.n_total_read() as u128]),
+                        }
+                    }
                     _ => {
                         let parts: Vec<&str> = op.split(':').collect();
                         assert_eq!(parts[0], "n");
